@@ -126,9 +126,12 @@ theorem C19_conservation (e : Event) :
     left; simp only []
     split
     · rfl
-    · split
-      · rfl
-      · exact hdis srv k
+    · rename_i kk _
+      split
+      · simp [pipeline, Server.setConn]
+      · have := hdis (srv.beforeDispatch kk r).1 k
+        simp only [] at this ⊢
+        rw [this]; simp [pipeline]
   | tick sid => left; simp only []; split <;> rfl
   | disconnect k => left; exact hdis srv k
   | drain => left; simp [pipeline]
